@@ -654,7 +654,9 @@ func metaGen() *rapid.Generator[[]s3c.KV] {
 		seen := map[string]bool{}
 		var out []s3c.KV
 		for i := 0; i < n; i++ {
-			k := rapid.StringMatching(`[a-z][a-z0-9-]{0,8}`).Draw(t, "mk")
+			// half of the names come from a small pool: successive writes of a key then often share some names and
+			// differ in others (replacement, not union or difference, is what must be read back)
+			k := rapid.OneOf(rapid.SampledFrom([]string{"color", "owner", "a", "b-c", "x1"}), rapid.StringMatching(`[a-z][a-z0-9-]{0,8}`)).Draw(t, "mk")
 			if seen[k] {
 				continue
 			}
